@@ -1030,3 +1030,51 @@ def facts_vs_formula(facts: Set[Tuple[str, bool]], formula: str) -> Tuple[bool, 
                 if not ok:
                     not_implied.add((k, p))
     return imp, not_implied
+
+
+# --------------------------------------------------------------------------- first active entry wins
+def first_match_loops(ctx, quals: Iterable[str], why: str, suffixes: Tuple[str, ...] = (".defaults", ".ranges")) -> int:
+    """In every search loop over a property list (`for value, cond in X.defaults:` with a break / return in it) the first
+    entry whose condition holds ends the search: every path through the arm that is taken when the condition is true
+    leaves the loop. (A `break` that depends on the entry's *value* lets a later entry overrule an earlier active one.)"""
+    repo = ctx.repo
+    n_loops = 0
+
+    def leaves(body):
+        if not body:
+            return False
+        last = body[-1]
+        if isinstance(last, (ast.Break, ast.Return, ast.Raise)):
+            return True
+        if isinstance(last, ast.If):
+            return bool(last.orelse) and leaves(last.body) and leaves(last.orelse)
+        return False
+
+    for q in quals:
+        f = repo.func(q)
+        ctx.analysed(q)
+        for n in own_nodes(repo, f):
+            if not isinstance(n, ast.For):
+                continue
+            it = ast.unparse(n.iter)
+            if not it.endswith(suffixes) or not any(isinstance(x, (ast.Break, ast.Return)) for x in ast.walk(n)):
+                continue
+            names = [t.id for t in ast.walk(n.target) if isinstance(t, ast.Name)]
+            if not names:
+                continue
+            cond = names[-1]
+            derived = {cond}
+            for st in n.body:
+                if isinstance(st, ast.Assign) and any(isinstance(x, ast.Name) and x.id in derived for x in ast.walk(st.value)):
+                    derived |= {t.id for tt in st.targets for t in ast.walk(tt) if isinstance(t, ast.Name)}
+            arms = [st for st in n.body if isinstance(st, ast.If) and {x.id for x in ast.walk(st.test) if isinstance(x, ast.Name)} & derived]
+            n_loops += 1
+            construct = f"{f.short}/the first active entry of `{it}` ends the search"
+            if not arms:
+                ctx.bad(construct, f"the loop leaves without testing the entry's condition `{cond}`: {why}", f.loc(n))
+            elif not all(leaves(a.body) for a in arms):
+                a = [a for a in arms if not leaves(a.body)][0]
+                ctx.bad(construct, f"under `{ast.unparse(a.test)[:60]}` the loop goes on to the next entry on some path: {why}", f.loc(a))
+            else:
+                ctx.ok(construct, f.loc(n))
+    return n_loops
